@@ -105,6 +105,83 @@ func propC08(a *Analysis, r *Registry) {
 	b.Formula(rB, "mathx.Lchoose", "mathx.Lchoose", []string{"n", "k"}, nil, 0,
 		"ite(k==0 || k==n, 0, ite(k<0 || n<k, nan(), lgamma(n+1)-lgamma(k+1)-lgamma(n-k+1)))", nil)
 
+	// BetaInc: end points and the reflection identity, derived from the extracted formula
+	if fn := b.Fn(rB, "mathx.BetaInc"); fn != nil {
+		env := X.EnvFor(fn, "x", "a", "b")
+		pos := []Assumption{X.AssumeCond(env.MustParse("0<a"), true), X.AssumeCond(env.MustParse("0<b"), true),
+			X.AssumeCond(env.MustParse("a<=0"), false), X.AssumeCond(env.MustParse("b<=0"), false)}
+		for _, ep := range []struct {
+			at   string
+			want int64
+		}{{"0", 0}, {"1", 1}} {
+			ep := ep
+			b.guard("B-C08 derived", "mathx.BetaInc/at-"+ep.at, func() {
+				as := append([]Assumption{X.AssumeEq(env.Vars["x"].RF, env.MustParse(ep.at))}, pos...)
+				fc := X.Under(fn, as...)
+				got := X.SimplifyUnder(fc.Sub(fc.RetVal(0)), as)
+				// which branch is taken at the end point is a sign question: x < (a+1)/(a+b+2) at 0, not at 1
+				thr := env.MustParse("(a+1)/(a+b+2)")
+				g := X.FCFor(fn).SignerAt(fn.Blocks[0].Instrs[0])
+				for _, a2 := range pos {
+					c := a2.Cond
+					if !a2.True {
+						c = S.Not(c)
+					}
+					g.addFact(c)
+				}
+				var extra []Assumption
+				if ep.at == "0" && g.Pos(thr) {
+					extra = append(extra, Assumption{Cond: S.Cmp("<", S.Int(0), thr), True: true})
+				}
+				if ep.at == "1" && g.Pos(S.Int(1).Sub(thr)) {
+					extra = append(extra, Assumption{Cond: S.Cmp("<", S.Int(1), thr), True: false})
+				}
+				got = X.SimplifyUnder(got, append(as, extra...))
+				b.EqRF("B-C08 derived", "mathx.BetaInc/at-"+ep.at, b.pos(fn), got, S.Int(ep.want), "BetaInc("+ep.at+", a, b) = "+itoa(int(ep.want))+" for a, b > 0")
+			})
+		}
+		// BetaInc(x,a,b) + BetaInc(1-x,b,a) = 1 on either side of the switch point x = (a+1)/(a+b+2)
+		// (at the switch point itself both calls take the complement form: the identity then rests on
+		// the two continued fractions being the same function, which is not a formula identity)
+		for _, below := range []bool{true, false} {
+			below := below
+			side := map[bool]string{true: "below", false: "above"}[below]
+			b.guard("B-C08 derived", "mathx.BetaInc/reflection/"+side, func() {
+				in01 := []Assumption{X.AssumeCond(env.MustParse("x<0"), false), X.AssumeCond(env.MustParse("1<x"), false),
+					X.AssumeCond(env.MustParse("0<x"), true), X.AssumeCond(env.MustParse("x<1"), true)}
+				thr := env.MustParse("(a+1)/(a+b+2)")
+				x := env.Vars["x"].RF
+				var side1 []Assumption
+				if below {
+					side1 = []Assumption{{Cond: S.Cmp("<", x, thr), True: true}}
+				} else {
+					side1 = []Assumption{{Cond: S.Cmp("<", x, thr), True: false}, {Cond: S.Cmp("<", thr, x), True: true}}
+				}
+				fc := X.Under(fn, append(in01, side1...)...)
+				p := X.SimplifyUnder(fc.Sub(fc.RetVal(0)), append(in01, side1...))
+				// the reflected call: x := 1-x, a <-> b, evaluated on the other side of its own switch point
+				full := X.FCFor(fn).RetVal(0)
+				m := map[AtomID]*RF{
+					env.Vars["x"].RF.SingleAtom().ID: S.Int(1).Sub(x),
+					env.Vars["a"].RF.SingleAtom().ID: env.Vars["b"].RF,
+					env.Vars["b"].RF.SingleAtom().ID: env.Vars["a"].RF,
+				}
+				q := full.Subst(m)
+				thr2 := env.MustParse("(b+1)/(a+b+2)")
+				var side2 []Assumption
+				if below {
+					// x < (a+1)/(a+b+2)  ⇔  (b+1)/(a+b+2) < 1-x
+					side2 = []Assumption{{Cond: S.Cmp("<", S.Int(1).Sub(x), thr2), True: false}}
+				} else {
+					side2 = []Assumption{{Cond: S.Cmp("<", S.Int(1).Sub(x), thr2), True: true}}
+				}
+				refl := []Assumption{{Cond: S.Cmp("<", S.Int(1).Sub(x), S.Int(0)), True: false}, {Cond: S.Cmp("<", S.Int(1), S.Int(1).Sub(x)), True: false},
+					{Cond: S.Cmp("<", S.Int(0), S.Int(1).Sub(x)), True: true}, {Cond: S.Cmp("<", S.Int(1).Sub(x), S.Int(1)), True: true}}
+				q = X.SimplifyUnder(q, append(append(append([]Assumption{}, in01...), refl...), side2...))
+				b.EqRF("B-C08 derived", "mathx.BetaInc/reflection/"+side, b.pos(fn), p.Add(q), S.Int(1), "BetaInc(x,a,b) + BetaInc(1-x,b,a) ≡ 1 "+side+" the switch point")
+			})
+		}
+	}
 	// betacf
 	if fn := b.Fn(rB, "mathx.betacf"); fn != nil {
 		b.guard(rB, "mathx.betacf", func() {
